@@ -40,6 +40,12 @@ pub enum Event {
     DupPrev,
     /// the server process dies and is started again; the editor re-opens what it believes open
     Restart,
+    /// another process (the editor saving a buffer, a checkout) writes or removes ws/<name> on the
+    /// simulated disk between two messages; nothing is sent to the server
+    Disk { name: String, text: Option<String> },
+    /// the client is silent for this long — REAL time (ironplc reads no clock, so on the pinned
+    /// tree nothing can depend on it; a change that adds an idle timer would). Rare and short.
+    Pause { millis: u64 },
 }
 
 impl Event {
@@ -57,6 +63,9 @@ impl Event {
             Event::ClientResponse { .. } => "clientResponse",
             Event::DupPrev => "duplicateDelivery",
             Event::Restart => "crashRestart",
+            Event::Disk { text: Some(_), .. } => "diskWrite",
+            Event::Disk { text: None, .. } => "diskRemove",
+            Event::Pause { .. } => "pause",
         }
     }
 }
@@ -77,6 +86,10 @@ pub struct LspTrace {
     /// source file, symlink loop): the workspace folder the server meets at initialize is not clean
     #[serde(default)]
     pub ws_extras: Vec<crate::world::Extra>,
+    /// a client that makes use of incremental synchronisation when — and only when — the server
+    /// advertises it: single-text didChange notifications are then sent as one ranged edit
+    #[serde(default)]
+    pub ranged_edits: bool,
     /// which legal shape the initialize request of the history's server takes (0 = the plain one)
     #[serde(default)]
     pub init_shape: u8,
@@ -139,10 +152,14 @@ pub fn initialize_params(ws: Option<&str>, shape: u8) -> Value {
 
 /// Expands a symbolic URI ("ws:a.st") to the real one.
 pub fn expand_uri(uri: &str) -> String {
-    match uri.strip_prefix("ws:") {
-        Some(name) => format!("file://{}/ws/{}", root().display(), name),
-        None => uri.to_string(),
+    if let Some(name) = uri.strip_prefix("ws:") {
+        return format!("file://{}/ws/{}", root().display(), name);
     }
+    // the same directory reached through a symbolic link (<root>/wsl -> <root>/ws)
+    if let Some(name) = uri.strip_prefix("wsl:") {
+        return format!("file://{}/wsl/{}", root().display(), name);
+    }
+    uri.to_string()
 }
 
 /// The path a file URI denotes on this platform, if any (the client-side model of `to_file_path`).
@@ -153,6 +170,64 @@ pub fn uri_path(uri: &str) -> Option<String> {
         return None;
     }
     url.to_file_path().ok().map(|p| p.to_string_lossy().to_string())
+}
+
+/// (line, UTF-16 column) of a byte offset, lines ending at LF (used only for texts without CR).
+pub fn lsp_position(text: &str, offset: usize) -> (u32, u32) {
+    let mut line = 0u32;
+    let mut col = 0u32;
+    for c in text[..offset].chars() {
+        if c == '\n' {
+            line += 1;
+            col = 0;
+        } else {
+            col += c.len_utf16() as u32;
+        }
+    }
+    (line, col)
+}
+
+/// The byte offset of an LSP position (UTF-16 columns, LF lines); positions beyond a line's end
+/// or the text's end are clamped, as the protocol asks of a server.
+pub fn lsp_offset(text: &str, line: u32, character: u32) -> usize {
+    let mut l = 0u32;
+    let mut col = 0u32;
+    for (i, c) in text.char_indices() {
+        if l == line && col >= character {
+            return i;
+        }
+        if c == '\n' {
+            if l == line {
+                return i;
+            }
+            l += 1;
+            col = 0;
+        } else if l == line {
+            col += c.len_utf16() as u32;
+        }
+    }
+    text.len()
+}
+
+/// One ranged content change that turns `old` into `new` (common prefix and suffix kept).
+pub fn ranged_change(old: &str, new: &str) -> Value {
+    let mut p = 0;
+    for ((i, a), b) in old.char_indices().zip(new.chars()) {
+        if a != b {
+            break;
+        }
+        p = i + a.len_utf8();
+    }
+    let mut s = 0;
+    for (a, b) in old[p..].chars().rev().zip(new[p..].chars().rev()) {
+        if a != b {
+            break;
+        }
+        s += a.len_utf8();
+    }
+    let (sl, sc) = lsp_position(old, p);
+    let (el, ec) = lsp_position(old, old.len() - s);
+    json!({"range": {"start": {"line": sl, "character": sc}, "end": {"line": el, "character": ec}}, "text": &new[p..new.len() - s]})
 }
 
 /// Request ids are unique per session; the kind varies their JSON shape.
@@ -224,7 +299,7 @@ pub fn event_message(ev: &Event, index: usize) -> Option<Message> {
             result: if *error { None } else { Some(Value::Null) },
             error: if *error { Some(ResponseError { code: -32601, message: "method not found".into(), data: None }) } else { None },
         }),
-        Event::DupPrev | Event::Restart => return None,
+        Event::DupPrev | Event::Restart | Event::Disk { .. } | Event::Pause { .. } => return None,
     })
 }
 
@@ -397,6 +472,27 @@ impl Session {
 
     pub fn is_dead(&self) -> bool {
         self.dead
+    }
+
+    /// Whether the initialize result advertises incremental text synchronisation (change kind 2).
+    pub fn advertises_incremental_sync(&self) -> bool {
+        self.inc.steps.first().is_some_and(|st| {
+            st.outputs.iter().any(|o| {
+                let sync = &o["result"]["capabilities"]["textDocumentSync"];
+                sync.as_u64() == Some(2) || sync["change"].as_u64() == Some(2)
+            })
+        })
+    }
+
+    /// Records something that happened beside the connection (a change of the simulated disk) at
+    /// its place in the history. The caller delivers a barrier notification first: once that has
+    /// been *accepted* the server had finished everything before it, so the change falls between
+    /// two messages (while the server handles the barrier, which it ignores).
+    pub fn note(&mut self, event: Option<usize>, label: &str, what: Value) {
+        if self.dead {
+            return;
+        }
+        self.inc.steps.push(Step { event, label: label.to_string(), sent: what, outputs: vec![] });
     }
 
     /// Clean end: shutdown request, exit notification, join.
